@@ -1,5 +1,6 @@
 import MetadorModel.Proofs.RecordOpen
 import MetadorModel.Proofs.RecordKw
+import MetadorModel.Proofs.RecordStub
 /-!
 # C02 — Committed IH5 containers are never modified again
 
@@ -19,7 +20,12 @@ property excludes: opening with the truncating mode `w` and `delete_files`.
 * `…_kw` — the same theorems for histories whose calls carry the optional keyword arguments
   (`OpK`: `manifest_file=`, `allow_baseless=` of the constructors, `manifest_exts=` of
   `commit_patch`; `Model/RecordKw.lean`), for every value of the keywords; `kw_default`: with
-  the default values a keyworded call is the plain call.
+  the default values a keyworded call is the plain call;
+* `…_stub` — the same theorems for histories that also leave `with` blocks (`__exit__`, with or
+  without an exception: `exit_is_close`), create stubs from manifests
+  (`IH5MFRecord.create_stub`, any target name, any manifest file) and call `merge_files` on
+  handles that hold a stub (`OpS`, `Model/RecordStub.lean`); `stub_default`: a history without
+  these is a keyworded history.
 -/
 namespace MetadorModel.C02
 open MetadorModel.Record MetadorModel.FindFiles
@@ -260,6 +266,104 @@ theorem snapshot_still_valid_kw (ops : List OpK) (s : State) (hi : Inv s) (hsafe
     intro x hx
     exact hsame _ (hnames x hx)
 
+/-! ## `with` blocks and the stub life cycle (`__exit__`, `create_stub`, merge refused on stubs) -/
+
+/-- leaving a `with` block, normally or by an exception, is `close(commit=True)`; a history
+without exits and stubs is a keyworded history -/
+theorem exit_is_close (t : StS) (e : Bool) : stepS t (.exit e) = step t.s (.close true) :=
+  stepS_exit t e
+
+theorem stub_default (ops : List OpK) (s : State) :
+    (runS { s := s } (ops.map OpS.kw)).s = runK s ops := (runS_kw ops s).1
+
+/-- **frame** with exits and stubs -/
+theorem frame_stub (t : StS) (op : OpS) (g : Name) (hg : g ∉ (stepS t op).W) :
+    getF (stepS t op).st.disk g = getF t.s.disk g := stepS_frame t op g hg
+
+/-- **one step**: `create_stub` (whatever name and manifest file it is given) and `__exit__`
+(whatever left the block) touch only fresh names, uncommitted containers and their sidecars -/
+theorem writes_only_uncommitted_or_fresh_stub (t : StS) (op : OpS) (hi : Inv t.s) (hsafe : op.safe = true)
+    (f : Name) (hf : f ∈ (stepS t op).W) :
+    (getF t.s.disk f = none ∧ f.getLast? = some '5') ∨
+    (∃ ub p, getF t.s.disk f = some (.cont ub p) ∧ ub.hash = none) ∨
+    (∃ g, f = manifestFile g ∧
+      ((getF t.s.disk g = none ∧ g.getLast? = some '5') ∨
+       (∃ ub p, getF t.s.disk g = some (.cont ub p) ∧ ub.hash = none))) :=
+  stepS_touch t op hsafe hi f hf
+
+theorem committed_step_stub (t : StS) (op : OpS) (hi : Inv t.s) (hsafe : op.safe = true) (f : Name)
+    (hp : Protected t.s.disk f) : getF (afterS t op).s.disk f = getF t.s.disk f := by
+  rw [afterS_s]
+  apply stepS_frame
+  intro hf
+  exact touchable_not_protected hi (stepS_touch t op hsafe hi f hf) hp
+
+theorem protected_step_stub (t : StS) (op : OpS) (hi : Inv t.s) (hsafe : op.safe = true) (f : Name)
+    (hp : Protected t.s.disk f) : Protected (afterS t op).s.disk f := by
+  rcases hp with hp | ⟨g, rfl, hp⟩
+  · left
+    unfold isCommitted
+    rw [committed_step_stub t op hi hsafe f (Or.inl hp)]
+    exact hp
+  · right
+    refine ⟨g, rfl, ?_⟩
+    unfold isCommitted
+    rw [committed_step_stub t op hi hsafe g (Or.inl hp)]
+    exact hp
+
+theorem inv_run_stub (ops : List OpS) (t : StS) (hi : Inv t.s) (hsafe : ∀ o ∈ ops, o.safe = true) :
+    Inv (runS t ops).s := by
+  induction ops generalizing t with
+  | nil => exact hi
+  | cons o r ih =>
+    simp only [runS]
+    exact ih _ (by rw [afterS_s]; exact stepS_inv t o (hsafe o (by simp)) hi) (fun o' ho' => hsafe o' (by simp [ho']))
+
+/-- **committed_frozen** for histories with `with` blocks left by exceptions and stub life cycles -/
+theorem committed_frozen_stub (ops : List OpS) (t : StS) (hi : Inv t.s) (hsafe : ∀ o ∈ ops, o.safe = true)
+    (f : Name) (hp : Protected t.s.disk f) : getF (runS t ops).s.disk f = getF t.s.disk f := by
+  induction ops generalizing t with
+  | nil => rfl
+  | cons o r ih =>
+    simp only [runS]
+    have ho := hsafe o (by simp)
+    rw [ih _ (by rw [afterS_s]; exact stepS_inv t o ho hi) (fun o' ho' => hsafe o' (by simp [ho']))
+      (protected_step_stub t o hi ho f hp)]
+    exact committed_step_stub t o hi ho f hp
+
+theorem sidecar_frozen_stub (ops : List OpS) (t : StS) (hi : Inv t.s) (hsafe : ∀ o ∈ ops, o.safe = true)
+    (g : Name) (hg : isCommitted t.s.disk g = true) :
+    getF (runS t ops).s.disk (manifestFile g) = getF t.s.disk (manifestFile g) :=
+  committed_frozen_stub ops t hi hsafe _ (Or.inr ⟨g, rfl, hg⟩)
+
+/-- **snapshot_still_valid**: a committed file list (a stub and the patches on it included) opens
+later exactly as it did -/
+theorem snapshot_still_valid_stub (ops : List OpS) (t : StS) (hi : Inv t.s) (hsafe : ∀ o ∈ ops, o.safe = true)
+    (fs : List Name) (hc : ∀ f ∈ fs, isCommitted t.s.disk f = true) (rw bl : Bool) :
+    openFilesK (runS t ops).s.disk fs rw bl = openFilesK t.s.disk fs rw bl ∧
+    ∀ files b, openFilesK t.s.disk fs rw bl = .ok (files, b) →
+      loadManifestK (runS t ops).s.disk files none = loadManifestK t.s.disk files none ∧
+      viewFiles (runS t ops).s.disk files = viewFiles t.s.disk files := by
+  have hsame : ∀ f ∈ fs, getF (runS t ops).s.disk f = getF t.s.disk f :=
+    fun f hf => committed_frozen_stub ops t hi hsafe f (Or.inl (hc f hf))
+  refine ⟨openFilesK_congr _ _ _ _ _ hsame, ?_⟩
+  intro files b hopen
+  obtain ⟨_, ⟨ubs, hl, rfl⟩, _⟩ := openFilesK_ok hopen
+  have hnames : ∀ x ∈ sortByIdx ubs, x.1 ∈ fs := by
+    intro x hx
+    have hx' : x ∈ ubs := (sortByIdx_perm ubs).mem_iff.mp hx
+    rw [← (loadAll_ok t.s.disk fs ubs hl).1]
+    exact List.mem_map_of_mem hx'
+  constructor
+  · apply loadManifestK_congr
+    · intro x hx
+      exact sidecar_frozen_stub ops t hi hsafe x.1 (hc _ (hnames x hx))
+    · intro g hg
+      cases hg
+  · apply viewFiles_congr
+    intro x hx
+    exact hsame _ (hnames x hx)
+
 /-! ## Non-vacuity: concrete histories meet the hypotheses -/
 
 /-- `foo` -/
@@ -328,6 +432,45 @@ example : view (runK {} (hist1.map OpK.base ++ hist3)) = [2, 3] ∧
       (.openKw true (.list [patchFile foo 1]) .r {})).out = .valueError ∧
     (stepK (runK {} (hist1.map OpK.base ++ [.base (.close true)]))
       (.openKw true (.name foo) .rp { mfile := some (manifestFile (baseFile foo)) })).out = .valueError := by decide
+
+/-! ### `with` blocks left by exceptions, stubs -/
+
+/-- `st` -/
+def st : Name := ['s', 't']
+
+/-- after `hist1`: leave the block by an exception; a stub `st` from the newest manifest of `foo`;
+a patch with data committed on it inside a block that is then left by an exception; the source
+gets a new patch; `create_stub` again at `st` (from the newer manifest) and at `foo` -/
+def hist4 : List OpS :=
+  [.exit true, .createStub st (manifestFile (patchFile foo 1)),
+   .kw (.base .createPatch), .kw (.base (.write 7)), .kw (.base .commitPatch), .exit true,
+   .kw (.base (.openRec true (.name foo) .rp)), .kw (.base (.write 8)), .exit false,
+   .createStub st (manifestFile (patchFile foo 2)), .createStub foo (manifestFile (patchFile foo 2))]
+
+def afterHist1 : StS := { s := run {} hist1 }
+
+example : ∀ o ∈ hist4, o.safe = true := by decide
+
+/-- the stub stands for `foo.p1` (patch index 1, all ids visible), the patch on it is committed
+(`st.p2.ih5` with its sidecar), both later `create_stub` calls are refused … -/
+example : isCommitted (runS afterHist1 hist4).s.disk (baseFile st) = true ∧
+    isCommitted (runS afterHist1 hist4).s.disk (patchFile st 2) = true ∧
+    (getF (runS afterHist1 hist4).s.disk (manifestFile (patchFile st 2))).isSome = true ∧
+    payloadOf (runS afterHist1 hist4).s.disk (baseFile st) = some [1, 2] ∧
+    (stepS (runS afterHist1 (hist4.take 9)) (.createStub st (manifestFile (patchFile foo 2)))).out = .fileExists ∧
+    (stepS (runS afterHist1 (hist4.take 10)) (.createStub foo (manifestFile (patchFile foo 2)))).out = .fileExists ∧
+    (stepS (runS afterHist1 (hist4.take 5)) (.kw (.base (.merge bar)))).out = .valueError := by decide
+
+/-- … and the stub base, committed after four calls of `hist4`, is bit-identical at the end
+(instance of `committed_frozen_stub`), as is the sidecar of the patch committed on it -/
+example : getF (runS (runS afterHist1 (hist4.take 2)) (hist4.drop 2)).s.disk (baseFile st) =
+    getF (runS afterHist1 (hist4.take 2)).s.disk (baseFile st) :=
+  committed_frozen_stub _ _ (inv_run_stub _ _ (inv_run _ _ inv_init (by decide)) (by decide)) (by decide) _
+    (Or.inl (by decide))
+
+example : getF (runS (runS afterHist1 (hist4.take 5)) (hist4.drop 5)).s.disk (manifestFile (patchFile st 2)) =
+    getF (runS afterHist1 (hist4.take 5)).s.disk (manifestFile (patchFile st 2)) :=
+  sidecar_frozen_stub _ _ (inv_run_stub _ _ (inv_run _ _ inv_init (by decide)) (by decide)) (by decide) _ (by decide)
 
 /-- the hypothesis `safe` is needed: mode `w` does rewrite a committed base (allowed by the
 property; shows that the frozen-ness theorems do not hold vacuously for all calls). -/
